@@ -20,7 +20,7 @@ MANIFEST = dict(
 def run(ctx):
     rng = ctx.rng
     n = ctx.count(4000)
-    cases = [sg.gen_case(rng, multi_line=True) for _ in range(n)]
+    cases = sg.regress_cases(True) + [sg.gen_case(rng, multi_line=True) for _ in range(n)]
     lines = [sg.case_val(c) for c in cases]
     co = vlib.code(301, lines)
     mo = vlib.model(301, lines)
